@@ -279,6 +279,9 @@ func (e *engine) runC28() {
 	// a link is closed, the last subscription is released while it is down, the same (peer, link)
 	// tuple comes up again: the neighbour must not keep the subscription of the closed session
 	e.runHistory("reconnect-after-release", 3, []string{"sub:0:c1", "sub:1:c1", "sub:2:c1", "connect:0:1", "connect:1:2", "settle", "close:0", "waitclosed:0", "rel:0:c1", "waitswept:0:c1", "reopen:0", "settle"}, 0, "hist.scripted")
+	// wave 5: subscription-control packets in every relation to the recorded set; publisher key != node
+	// identity on cycles with a slow direct edge
+	e.runC28Wave5()
 	rounds := 8 * e.a.Scale
 	for r := 0; r < rounds; r++ {
 		for _, shape := range []string{"line", "ring", "star", "complete", "random", "late-links", "parallel"} {
